@@ -188,10 +188,22 @@ func runC15(h *Harness) {
 	// "independently of other validator instances in the same process": from now on the origin of ONE instance accepts
 	// connections and never answers (a black hole; nothing in the repository bounds a download). That instance is lost
 	// to its own origin; the OTHERS must go on refreshing theirs and enforce what their origins publish.
-	var blackHoled *inst
+	var blackHoled, hungOnce *inst
 	if nn > 1 && tp.Chance(1, 3) {
 		cand := insts[tp.Int(len(insts))]
-		if cand.source != "file" {
+		if cand.source != "file" && tp.Chance(1, 3) {
+			// variant: ONE request of that instance is accepted and never answered; everything after it is served
+			// normally. The instance stays under the promises: a download that never ends is a failed attempt like
+			// any other, after which the next cycles fetch again.
+			hungOnce = cand
+			cand.loc.HangFirst, cand.loc.Fetches = 1, 0
+			if h.S.noDeadlockNode == nil {
+				h.S.noDeadlockNode = map[string]bool{}
+			}
+			h.S.noDeadlockNode[cand.n.Name] = true
+			sc["hung_once"] = cand.n.Name
+			h.R.NonTrivial = true
+		} else if cand.source != "file" {
 			blackHoled = cand
 			cand.loc.State, cand.loc.StallFor = oStall, 200*time.Hour
 			// (its own later ticks queue up behind the cycle that hangs in the download: that is this instance's
@@ -252,11 +264,15 @@ func runC15(h *Harness) {
 		}
 		hs := h.Handshake(in.n, "newly-revoked", w.ChainFor(in.loc.Cert(in.loc.OnlyV[1], cdp...), w.A))
 		h.R.Checks++
+		if !isRevokedErr(hs.Err) && in == hungOnce {
+			h.Violation("C15.b-revocation-enforced", "after-hung-download:"+in.source, "instance %s (source %s, interval %v): one of its downloads was accepted by the origin and never answered; every later request would have been served, but %v later the instance has not fetched again and the newly revoked certificate is still %s: nothing bounds a download, the refresh cycle that hangs in it keeps the instance's update lock for good", in.n.Name, in.source, in.ivl, end-tpub, errStr(hs.Err))
+			continue
+		}
 		if !isRevokedErr(hs.Err) {
 			h.Violation("C15.b-revocation-enforced", fmt.Sprintf("not-enforced:%s:nodes=%d", in.source, nn), "instance %s (source %s, interval %v, %d instances, fetch %q, signature mode %q): %v after an acceptable newer CRL was published the newly revoked certificate is still %s (probe pattern %s)", in.n.Name, in.source, in.ivl, nn, fetch, sig, end-tpub, errStr(hs.Err), in.loc.Pattern(in.n))
 		}
-		// (a) fetch windows
-		if in.source != "file" {
+		// (a) fetch windows (not for the instance one of whose downloads hangs for good: (b) speaks for it)
+		if in.source != "file" && in != hungOnce {
 			var ts []time.Duration
 			for _, x := range h.Net.HitsFor(in.loc.URL) {
 				if x.Node == in.n.Name {
